@@ -305,7 +305,7 @@ class ComposedNode(ConfigNode):
             for key, value in other._children.items():
                 child = self.ayns.get_child(key, None)
                 if child is None:
-                    value.ayns._require_all_new(path + [key], f'last parent: {_this_path!r}, from file: {self.ayns.source_file!r}')
+                    value.ayns._require_all_new(path + [key], f'last parent: {_this_path!r}, from file: {self.ayns.source_file!r}', exceptions=removed if other.ayns.delete else None)
                     self.ayns.set_child(key, value)
                 else:
                     merge = isinstance(child, ComposedNode)
